@@ -26,7 +26,7 @@ def prop(pid, rules, explanation, minimum=None, assumptions=None):
 
 prop('C01',
      [T.rule_lookup_shape, T.rule_chain, T.rule_total_ber, T.rule_pair_ber, T.rule_fragment_tag_ber, A.rule_a7_unit,
-      A.rule_a8_pairing, W.rule_encode_header, W.rule_decode_header, A.rule_c04_default, E.rule_option_latch, A.rule_a6_spec, Z.rule_encode_tag_arms, Z.rule_bits_prepend, Z.rule_option_scope, A.rule_a6_optdef, Z.rule_encode_contents],
+      A.rule_a8_pairing, W.rule_encode_header, W.rule_decode_header, A.rule_c04_default, E.rule_option_latch, A.rule_a6_spec, Z.rule_encode_tag_arms, Z.rule_bits_prepend, Z.rule_option_scope, A.rule_a6_optdef, Z.rule_encode_contents, Z.rule_real_format],
      'Static necessary conditions of the BER round trip: every type class has an encoder by type and a decoder by type; '
      'writer and reader of each type belong to the same codec family; string segments are tagged by the writer as the '
      'reader demands and as X.690 8.23.6 says; chunks are slices of the measured octets; end-of-octets is appended iff '
@@ -46,7 +46,7 @@ prop('C02',
 
 prop('C03',
      [T.rule_x680, T.rule_modes, T.rule_canonical_sort_registered, M.rule_a9_set, M.rule_a9_setof, W.rule_encode_header,
-      A.rule_a8_pairing, A.rule_c13, E.rule_option_latch, Z.rule_encode_tag_arms, Z.rule_real_normalisation, M.rule_a9_dynamic, Z.rule_encode_contents],
+      A.rule_a8_pairing, A.rule_c13, E.rule_option_latch, Z.rule_encode_tag_arms, Z.rule_real_normalisation, M.rule_a9_dynamic, Z.rule_encode_contents, Z.rule_real_format],
      'Compared with an independent X.680/X.690 table: universal tag numbers, class/format constants, end-of-octets '
      'octets, canonical encoder modes, TRUE = FF, identifier/length octet thresholds of the encoder, SET members '
      'ordered by the outermost tag, SET OF members sorted as zero-padded octet strings, end-of-octets iff indefinite '
@@ -96,7 +96,7 @@ prop('C08',
       'W.content': 15})
 
 prop('C09',
-     [T.rule_ber_lax, T.rule_fragment_tag_ber, A.rule_a7_nested, A.rule_a6_spec, W.rule_decode_header, Z.rule_bits_prepend, Z.rule_constructed_yields, A.rule_a6_optdef],
+     [T.rule_ber_lax, T.rule_fragment_tag_ber, A.rule_a7_nested, A.rule_a6_spec, W.rule_decode_header, Z.rule_bits_prepend, Z.rule_constructed_yields, A.rule_a6_optdef, Z.rule_real_format],
      'BER decoder stays lax where X.690 allows choice: any non-zero TRUE, constructed strings with OCTET STRING '
      'segments (nested too), indefinite lengths, long-form lengths with leading zeros, SET members looked up by tag in '
      'any position in both length forms (sibling agreement of the record loops).  Length arithmetic is not decided.',
